@@ -614,6 +614,36 @@ theorem C13_scored_disjunction_closed (g : σ → Nat → Nat) (hS : Scored A VA
       (fun p => p.2) :=
   Disj.scored hS
 
+/-- **Composition of the score clause, Intersection**: over scored children (holding small documents,
+see `Scored.restrict`) the intersection, paired with the sum of its children's score functions, is
+again a scored child -/
+theorem C13_scored_intersection_closed (g : σ → Nat → Nat) (hS : Scored A VA WA g)
+    (hsmall : ∀ {c l}, VA c l → ∀ x ∈ l, x + BLOCK_WINDOW ≤ TERMINATED) (fx : Fix) :
+    Scored ((Inter.ds A fx).withGhost (α := Nat → Nat))
+      (fun p l => Inter.V VA WA p.1 l ∧ Inter.PF g p.2 p.1)
+      (fun p t l => Inter.W VA WA p.1 t l ∧ Inter.PF g p.2 p.1) (fun p => p.2) :=
+  Inter.scored hS hsmall fx
+
+/-- **Composition of the score clause, Exclude**: a scored scorer minus lawful exclusion sets is a
+scored child with the underlying scorer's score function -/
+theorem C13_scored_exclude_closed (g : σ → Nat → Nat) (hS : Scored A VA WA g) (hB : Lawful B VB WB) :
+    Scored (Exclude.ds A B) (Exclude.V VA VB WB) (defaultW (Exclude.V VA VB WB)) (fun s => g s.u) :=
+  Exclude.scored hS hB
+
+/-- **Composition of the score clause, RequiredOptionalScorer** (SumCombiner): a scored required child
+and a scored optional child give a scored child; its score function `F` is the required score plus
+the optional score on the optional scorer's documents (`ReqOpt.FC`), cached values included -/
+theorem C13_scored_reqopt_closed (gA : σ → Nat → Nat) (gB : τ → Nat → Nat) (hSA : Scored A VA WA gA)
+    (hSB : Scored B VB WB gB) :
+    Scored ((ReqOpt.ds A B).withGhost (α := Nat → Nat))
+      (fun p l => ReqOpt.RS gA gB VA VB p.2 p.1 l) (fun p t l => ReqOpt.RSW gA gB WA VB p.2 p.1 t l)
+      (fun p => p.2) :=
+  ReqOpt.scored hSA hSB
+
+/-- a scored child stays scored when its lists are restricted to small documents -/
+theorem C13_scored_restrict (g : σ → Nat → Nat) (hS : Scored A VA WA g) : Scored A (RV VA) (RW WA) g :=
+  hS.restrict
+
 /-- score of the intersection from `Intersection::new`, after ANY legal mix of `advance` and `seek`:
 `score()` at the current document `d` is the sum of `g c d` over all its children -/
 theorem C13_intersection_score_after_moves (hA : Lawful A VA WA) (g : σ → Nat → Nat)
@@ -707,11 +737,11 @@ clause of the SUM buffered union and of Disjunction under any mix of advance / s
 (`C13_union_score_value`, `C13_union_score_path_independent`, `C13_disjunction_score_*`) and of the
 intersection.
 
-OPEN — the DisjunctionMax combiner (oracle-only, not modelled); composition of the SCORE clause is
-proved for the SUM union and Disjunction (`C13_scored_union_closed`, `C13_scored_disjunction_closed`,
-instance `C13_union_of_unions_score`); the analogous closure for Intersection / RequiredOptional /
-Exclude nodes (their score theorems are per node, over children with a state-independent score
-function) is not done, so there is no score statement yet for arbitrary trees.
+OPEN — the DisjunctionMax combiner (oracle-only, not modelled).
+The SCORE clause composes: `Scored` (what a scoring parent needs from a child) holds for the vector
+leaf and is closed under SUM union, Disjunction, Intersection, Exclude and RequiredOptional
+(`C13_scored_*_closed`); a single statement quantifying over the harness's tree descriptions, as
+`C13_tree_program_equiv` does for the document sequence, is not written.
 
 Hypothesis kept: the children of an Intersection hold documents with doc + BLOCK_WINDOW ≤ TERMINATED
 (`Small`). It mirrors a precondition of the real default `fill_bitset_block(min_doc, ..)`: with
